@@ -58,6 +58,22 @@ Definition check_stencil (steps : list Z) (w : list dy) (d : nat) (rtol : dy) : 
 Definition first_bad_moment (steps : list Z) (w : list dy) (d : nat) (rtol : dy) : option nat :=
   find (fun k => negb (check_moment steps w d rtol k)) (seq 0 (length steps)).
 
+(* ---------------- Neumann boundary rows ----------------------------------------------------- *)
+(* A Neumann row of get_finite_difference_matrix acts on interior samples AND on the prescribed boundary derivative
+   (through the boundary vector b):  L(p) = sum_i w_i p(x + s_i h) + c * h * p'(x + g h).
+   Its k-th moment (p = ((y-x)/h)^k) is  sum_i w_i s_i^k + c * k * g^(k-1). *)
+Definition dmoment (g : Z) (k : nat) : dy :=
+  match k with O => d0 | S k' => dmul (dZ (Z.of_nat k)) (dpow (dZ g) k') end.
+Definition nmoment (steps : list Z) (w : list dy) (c : dy) (g : Z) (k : nat) : dy :=
+  dadd (smoment steps w k) (dmul c (dmoment g k)).
+Definition nmoment_abs (steps : list Z) (w : list dy) (c : dy) (g : Z) (k : nat) : dy :=
+  dadd (smoment_abs steps w k) (dmul (dabs c) (dmoment (Z.abs g) k)).
+Definition check_nmoment (steps : list Z) (w : list dy) (c : dy) (g : Z) (d : nat) (rtol : dy) (k : nat) : bool :=
+  dleb (dabs (dsub (nmoment steps w c g k) (target d k))) (dmul rtol (nmoment_abs steps w c g k)).
+(* n = number of polynomial coefficients (degree + 1) up to which exactness is claimed *)
+Definition check_neumann_row (steps : list Z) (w : list dy) (c : dy) (g : Z) (d : nat) (rtol : dy) (n : nat) : bool :=
+  Nat.eqb (length steps) (length w) && forallb (check_nmoment steps w c g d rtol) (seq 0 n).
+
 (* ---------------- periodic matrix, as the source builds it --------------------------------- *)
 
 (* entry (r, c) of  coeff * eye(size, k)  *)
